@@ -488,10 +488,52 @@ def haar_cases(rng, tier):
     return cs
 
 
+def haarnd_cases(rng, tier):
+    """Haar / pywt_periodic over a SUBSET of the axes of an N-d space with anisotropic cell sides."""
+    import odl
+    cs = C.CaseSet('haarnd', ['C18.ModelH', 'C18.Corr'], 'check_haarnd', 'case_haarnd')
+    todo = []
+    for nd in (1, 2, 3):
+        for k in range(1, nd + 1):
+            for axes in itertools.permutations(range(nd), k):
+                for L in (1, 2):
+                    todo.append((nd, list(axes), L))
+    if tier != 'quick':
+        todo = todo * 3
+    for nd, axes, L in todo:
+        shape = [2 ** L * rng.randint(1, 2) if i in axes else rng.randint(1, 3) for i in range(nd)]
+        if rng.random() < 0.15:                      # an odd level length somewhere (values still correspond)
+            shape[axes[0]] += 1
+        sides = [rng.choice([0.5, 2.0, 0.25, 1.0, 4.0]) for _ in shape]
+        sp = odl.uniform_discr([0.0] * nd, [n * s for n, s in zip(shape, sides)], shape)
+        with warnings.catch_warnings():
+            warnings.simplefilter('ignore')
+            W = odl.trafos.WaveletTransform(sp, 'haar', nlevels=L, pad_mode='pywt_periodic', axes=axes)
+            x = _rand_arr(rng, shape, False)
+            xs = [_rand_arr(rng, shape, False) for _ in range(2)]
+            c = _rand_arr(rng, [W.range.size], False)
+            even = all(shape[a] % (2 ** L) == 0 for a in axes)
+            fwd = np.asarray(W(x)).ravel()
+            adj = np.asarray(W.adjoint(c)).ravel()
+            inv = np.asarray(W.inverse(c)).ravel()
+            iadj = np.asarray(W.inverse.adjoint(x)).ravel()
+        if not even:
+            continue
+        term = ('{| n_L := %s%%nat; n_shape := %s; n_axes := %s; n_sides := %s; n_x := %s; n_fwd := %s; '
+                'n_xs := %s; n_c := %s; n_adj := %s; n_inv := %s; n_iadj := %s |}'
+                % (C.nat(L), nats(shape), nats(axes), C.qs(sides), C.qs(x.ravel().tolist()), C.qs(fwd.tolist()),
+                   C.qss([v.ravel().tolist() for v in xs]), C.qs(c.tolist()), C.qs(adj.tolist()),
+                   C.qs(inv.tolist()), C.qs(iadj.tolist())))
+        cs.add(term, {'shape': shape, 'axes': axes, 'nlevels': L, 'cell_sides': sides,
+                      'x': x.ravel().tolist(), 'c': c.tolist()},
+               (tuple(shape), tuple(axes), L, tuple(sides), str(x.ravel().tolist()), str(c.tolist())))
+    return cs
+
+
 def correspondence(rng, tier):
     C.setup_impl_path()
     return [rg_cases(rng, tier), fac_cases(rng, tier), cis_cases(rng, tier), dft_cases(rng, tier), ft_cases(rng, tier)] \
-        + wavelet_cases(rng, tier) + [haar_cases(rng, tier)]
+        + wavelet_cases(rng, tier) + [haar_cases(rng, tier), haarnd_cases(rng, tier)]
 
 
 LEVEL_TEXT = ('Partial proof. Proved in Coq for ALL sizes/shapes/axes lists/shift patterns/signs: reciprocal_grid has '
